@@ -144,4 +144,4 @@ package cty
 //
 //@ func (cty.Value).LengthInt
 //@   trusted
-//@   ensures (and (<= 0 result) (<= result 72057594037927936))
+//@   ensures (and (<= 0 result) (<= result 72057594037927936) (= result (len_int val)))
